@@ -113,7 +113,7 @@ def _c09_relational(rng, held, names, b):
 
 def check_C09(ctx):
     rng = ctx.rng
-    n_scen = 14 if ctx.tier == 'quick' else 150
+    n_scen = 40 if ctx.tier == 'quick' else 150
     for k in range(n_scen):
         if ctx.time_left() < 10:
             break
@@ -125,14 +125,14 @@ def check_C09(ctx):
         for label, op, args in rng.sample(ops, 4 if ctx.tier == 'quick' else len(ops)):
             _c09_one(ctx, lines, held, names, label, op, args)
     # copy into a manager in which reordering is enabled
-    for k in range(6 if ctx.tier == 'quick' else 60):
+    for k in range(15 if ctx.tier == 'quick' else 60):
         if ctx.time_left() < 10:
             break
         _c09_copy(ctx)
     _c09_direct(ctx)
     _c09_known_witnesses(ctx)
     # natural triggering at lowered thresholds
-    for k in range(30 if ctx.tier == 'quick' else 400):
+    for k in range(80 if ctx.tier == 'quick' else 400):
         if ctx.time_left() < 5:
             break
         nv = rng.randint(4, 8)
@@ -430,7 +430,7 @@ def check_C13(ctx):
         s.close()
     ctx.exhaustive = True
     # 2-3 pairs, dense sampling; pairs adjacent; image also on arbitrary orders
-    for k in range(40 if ctx.tier == 'quick' else 600):
+    for k in range(100 if ctx.tier == 'quick' else 600):
         if ctx.time_left() < 5:
             break
         np_ = rng.randint(2, 3)
@@ -656,7 +656,7 @@ def check_C18(ctx):
             break
     # inspect, drop, collect, rebuild (node numbers re-used), inspect again
     from lib import reachable as _reach
-    for k in range(40 if ctx.tier == 'quick' else 400):
+    for k in range(100 if ctx.tier == 'quick' else 400):
         if ctx.time_left() < 8:
             break
         names = [chr(ord('a') + i) for i in range(rng.randint(2, 4))]
@@ -777,7 +777,7 @@ def _c09_direct(ctx):
     import os
     rng = ctx.rng
     _bdd = implmod._bdd
-    for rep in range(6 if ctx.tier == 'quick' else 60):
+    for rep in range(12 if ctx.tier == 'quick' else 60):
         names = [chr(ord('a') + i) for i in range(rng.randint(3, 5))]
         order = names[:]
         rng.shuffle(order)
@@ -835,7 +835,7 @@ def _c09_direct(ctx):
                     break
                 k += 1
     # autoref.find_or_add and pickle load with reordering enabled: the request must not escape
-    for rep in range(4 if ctx.tier == 'quick' else 40):
+    for rep in range(8 if ctx.tier == 'quick' else 40):
         bdd = _auto.BDD()
         bdd.declare('x', 'y', 'z')
         bdd.configure(reordering=True)
